@@ -83,6 +83,11 @@ const (
 	// of the specification this allows to decrease hardware complexity as
 	// in all opcodes the 31 bit is the sign bit.
 	immTypeJ
+
+	// immTypeShamt is a format of shift instructions which encode an
+	// unsigned shift amount in instruction opcode bits [20:25]. Opcodes of
+	// instructions with just 5 bit shift amount have bit 25 fixed to zero.
+	immTypeShamt
 )
 
 // parseBitRange parses bits in range [begin, end) in value into lowest bytes of
@@ -162,6 +167,8 @@ func (t immType) parseValue(value uint32) (int32, bool) {
 		unsigned := (first << 1) | (second << 11) | (third << 12) | (sign << 20)
 		val := signExtend(unsigned, 20)
 		return val, true
+	case immTypeShamt:
+		return int32(parseBitRange(value, 20, 26)), true
 	default:
 		panic(fmt.Sprintf("unknown immediate type: %v", t))
 	}
